@@ -1,4 +1,6 @@
 """C25 - exported ground programs keep the original semantics (translation validation)."""
+from hypothesis import strategies as st
+
 from pbt.core.api import Failure, Outcome, SubCheck
 from pbt.core import plrun
 from pbt.gen import programs as gp
@@ -163,7 +165,7 @@ def check(case):
 
 
 def _strategy():
-    return gp.programs().map(lambda p: {"prog": p})
+    return st.one_of(gp.programs(), gp.programs(), gp.programs(evidence_bias=True)).map(lambda p: {"prog": p})
 
 
 def _recursive_with_ad(case, failure):
